@@ -524,6 +524,80 @@ func runRecurringUniverse(c *fw.Ctx, deal func() bool) {
 	}
 	c.Note("universe_c", fmt.Sprintf("%d recurring event shapes x all (start,end) pairs over the instance-boundary grid", shapes))
 	runZonedRecurringUniverse(c, deal)
+	runExdateUniverse(c, deal)
+}
+
+// (c'') exception dates: every non-empty proper subset of the instances of a
+// DAILY rule with COUNT 2..4 taken out by EXDATE (one property with a list,
+// or one property per date), zero-length and one-hour instances; ranges over
+// the instance-boundary grid. An occurrence removed by EXDATE is not an
+// instance - also when it is the one at DTSTART.
+func runExdateUniverse(c *fw.Ctx, deal func() bool) {
+	shapes := 0
+	S := g(0)
+	for count := 2; count <= 4; count++ {
+		for _, dur := range []time.Duration{0, time.Hour} {
+			for mask := 1; mask < (1<<count)-1; mask++ {
+				for _, listed := range []bool{true, false} {
+					shapes++
+					ev := Comp{Name: "VEVENT", Props: []Prop{rawProp("UID", "rx"), dtProp("DTSTART", S, "utc")}}
+					if dur != 0 {
+						ev.Props = append(ev.Props, durProp(dur))
+					}
+					ev.Props = append(ev.Props, rawProp("RRULE", fmt.Sprintf("FREQ=DAILY;COUNT=%d", count)))
+					var vals []string
+					for k := 0; k < count; k++ {
+						if mask&(1<<k) != 0 {
+							vals = append(vals, S.Add(time.Duration(k)*24*time.Hour).UTC().Format("20060102T150405Z"))
+						}
+					}
+					if listed {
+						ev.Props = append(ev.Props, rawProp("EXDATE", strings.Join(vals, ",")))
+					} else {
+						for _, v := range vals {
+							ev.Props = append(ev.Props, rawProp("EXDATE", v))
+						}
+					}
+					pts := map[int64]time.Time{}
+					for k := 0; k <= count; k++ {
+						s := S.Add(time.Duration(k) * 24 * time.Hour)
+						for _, t := range []time.Time{s, s.Add(dur)} {
+							for _, off := range []time.Duration{0, -30 * time.Minute, 30 * time.Minute} {
+								u := t.Add(off)
+								pts[u.Unix()] = u
+							}
+						}
+					}
+					var grid []time.Time
+					for _, t := range pts {
+						grid = append(grid, t)
+					}
+					sort.Slice(grid, func(i, j int) bool { return grid[i].Before(grid[j]) })
+					cal := vcal(ev)
+					for rs := -1; rs < len(grid); rs++ {
+						for re := rs + 1; re <= len(grid); re++ {
+							if rs < 0 && re == len(grid) {
+								continue
+							}
+							if !deal() {
+								continue
+							}
+							var a, b Time
+							if rs >= 0 {
+								a = mkTime(grid[rs], "")
+							}
+							if re < len(grid) {
+								b = mkTime(grid[re], "")
+							}
+							f := rangeFilter(a, b)
+							execMatch(c, Case{Op: "match", Universe: "c:recurring with EXDATE (exhaustive)", Filter: &f, Object: &cal})
+						}
+					}
+				}
+			}
+		}
+	}
+	c.Note("universe_c_exdate", fmt.Sprintf("%d recurring event shapes with exception dates (every non-empty proper subset of the instances) x all ranges over the instance-boundary grid", shapes))
 }
 
 // (c') recurring events whose DTSTART carries a TZID, the rule running across
